@@ -4,12 +4,27 @@
 // filesystem; every prefix of the filesystem mutations it issued (plus torn variants of a
 // final write) is rebuilt as a fresh in-memory image — the property's own process-crash
 // model — and cesium.Open + reads on that image are judged by the recovery oracle.
+//
+// Violation signatures: c02:<failure class>:<idx|data>:<unfinished update>@<own|index|->
+// (c02:open-error:-:<unfinished updates>@any when the database does not open). They name
+// what the oracle observed, the role of the channel that failed and the *state of the
+// on-disk image* at the crash point, derived from the recorded calls alone: which
+// multi-step update of the failing channel's directory (own) or of its index channel's
+// directory (index) had begun but not finished (see dirStates, rootState), or
+// ahead-of-index when no update is unfinished but the data channel's stored domains extend
+// past its index channel's. The state — not the operation that happened to be in flight
+// or the neighbouring calls of other channels, which depend on goroutine and map order —
+// identifies a root cause, and it is a small closed vocabulary. clean@- means no
+// unfinished update explains the failure. The witness keeps the window (op in flight,
+// last and next call) and the full directory states.
 package main
 
 import (
 	"bytes"
 	"context"
+	"encoding/binary"
 	"fmt"
+	"os"
 	"path"
 	"regexp"
 	"sort"
@@ -26,6 +41,14 @@ import (
 )
 
 func main() {
+	if p := os.Getenv("C02_DUMP"); p != "" {
+		dumpMain(p)
+		return
+	}
+	if p := os.Getenv("C02_MIN"); p != "" {
+		minimizeMain(p)
+		return
+	}
 	harness.Main("C02", "fault_enumeration",
 		harness.Layer{Name: "writes", Run: func(h *harness.H) { run(h, "writes", h.N(30, 1200), false) }},
 		harness.Layer{Name: "maint", Run: func(h *harness.H) { run(h, "maint", h.N(30, 1200), true) }},
@@ -34,6 +57,16 @@ func main() {
 
 var uniqueTypes = []string{"int64", "uint64", "float64", "timestamp", "uuid", "json"}
 
+// readWatchdog bounds one read of a recovered image (in-memory, a few hundred samples).
+// It is a watchdog, not an oracle: a read that does not return is counted inconclusive
+// (reason read-hang) and its witness is written next to the replays.
+var readWatchdog = func() time.Duration {
+	if v, err := time.ParseDuration(os.Getenv("C02_WATCHDOG")); err == nil && v > 0 {
+		return v // triage only
+	}
+	return 90 * time.Second
+}()
+
 type snapshot struct {
 	durable *cskit.Model
 	ever    map[uint32]map[string]cskit.Stamp
@@ -41,15 +74,18 @@ type snapshot struct {
 }
 
 type witness struct {
-	Script   *cskit.Script    `json:"script"`
-	Prefix   int              `json:"mutations_applied"`
-	Torn     int              `json:"torn_bytes"`
-	Total    int              `json:"mutations_total"`
-	InFlight string           `json:"op_in_flight"`
-	OpIndex  int              `json:"op_index"`
-	Last     []recfs.Mutation `json:"last_mutations"`
-	Next     *recfs.Mutation  `json:"next_mutation,omitempty"`
-	Detail   string           `json:"detail"`
+	Script   *cskit.Script     `json:"script"`
+	Prefix   int               `json:"mutations_applied"`
+	Torn     int               `json:"torn_bytes"`
+	Total    int               `json:"mutations_total"`
+	InFlight string            `json:"op_in_flight"`
+	OpIndex  int               `json:"op_index"`
+	Channel  uint32            `json:"channel,omitempty"`
+	States   map[string]string `json:"directory_states"`
+	Window   string            `json:"window"`
+	Last     []recfs.Mutation  `json:"last_mutations"`
+	Next     *recfs.Mutation   `json:"next_mutation,omitempty"`
+	Detail   string            `json:"detail"`
 }
 
 func run(h *harness.H, layer string, n int, maint bool) {
@@ -91,27 +127,322 @@ func cloneEver(e map[uint32]map[string]cskit.Stamp) map[uint32]map[string]cskit.
 
 var numRe = regexp.MustCompile(`[0-9]+`)
 
+// chanOfPath returns the channel key of a path under db/<key>/...
+func chanOfPath(p string) (uint32, bool) {
+	parts := strings.Split(p, "/")
+	if len(parts) >= 2 {
+		var key uint32
+		if _, err := fmt.Sscanf(parts[1], "%d", &key); err == nil && fmt.Sprint(key) == parts[1] {
+			return key, true
+		}
+	}
+	return 0, false
+}
+
+func isIndexChan(s *cskit.Script, key uint32) bool {
+	for _, g := range s.Groups {
+		if g.Index.Key == key {
+			return true
+		}
+	}
+	return false
+}
+
+func indexOf(s *cskit.Script, key uint32) uint32 {
+	for _, g := range s.Groups {
+		if g.Index.Key == key {
+			return key
+		}
+		for _, d := range g.Data {
+			if d.Key == key {
+				return g.Index.Key
+			}
+		}
+	}
+	return 0
+}
+
 // fileClass normalises a path to <file class>(<channel role>): e.g. index.domain(idx),
 // N.domain(data), meta.json(data), N(idx) for a channel directory.
 func fileClass(s *cskit.Script, p string) string {
 	b := path.Base(p)
 	role := ""
-	parts := strings.Split(p, "/")
-	if len(parts) >= 2 {
-		var key uint32
-		if _, err := fmt.Sscanf(parts[1], "%d", &key); err == nil {
-			role = "(data)"
-			for _, g := range s.Groups {
-				if g.Index.Key == key {
-					role = "(idx)"
-				}
-			}
+	if key, ok := chanOfPath(p); ok {
+		role = "(data)"
+		if isIndexChan(s, key) {
+			role = "(idx)"
 		}
 	}
 	if strings.Contains(b, "-DELETE-") {
 		return "deleted-dir" + role
 	}
 	return numRe.ReplaceAllString(b, "N") + role
+}
+
+// dirStates derives, for every channel directory, which multi-step update had begun but
+// not finished in the image muts[:k] (last write cut to torn bytes when torn >= 0). The
+// vocabulary, joined by '+', "clean" when empty:
+//
+//	no-meta          the directory exists, meta.json has not been renamed into place
+//	idx-trunc        index.domain was truncated for a rewrite; the rewrite (the next call on
+//	                 this directory) has not happened
+//	idx-torn         the rewrite of index.domain is the torn final write
+//	gc-copy          a N.domain_gc compaction copy is being written; nothing swapped yet
+//	gc-file-missing  N.domain was renamed to N.domain_temp; the copy is not yet in its place
+//	gc-swapped       a compacted copy replaced N.domain; index.domain has not been rewritten
+//	                 since (it still holds the offsets of the old file)
+func dirStates(muts []recfs.Mutation, k, torn int) map[uint32]string {
+	type st struct {
+		hasDir, hasMeta   bool
+		idxTrunc, idxTorn bool
+		copying           bool
+		missing           map[string]bool
+		swapped           bool
+	}
+	states := map[uint32]*st{}
+	get := func(key uint32) *st {
+		if states[key] == nil {
+			states[key] = &st{missing: map[string]bool{}}
+		}
+		return states[key]
+	}
+	// nextInDir returns the next non-marker mutation (in the whole log) of the same directory
+	nextInDir := func(from int, key uint32) *recfs.Mutation {
+		for j := from; j < len(muts); j++ {
+			if muts[j].Kind == recfs.Marker {
+				continue
+			}
+			if kk, ok := chanOfPath(muts[j].Path); ok && kk == key {
+				return &muts[j]
+			}
+		}
+		return nil
+	}
+	for i := 0; i < k; i++ {
+		m := muts[i]
+		if m.Kind == recfs.Marker {
+			continue
+		}
+		key, ok := chanOfPath(m.Path)
+		if !ok {
+			continue
+		}
+		d := get(key)
+		base := path.Base(m.Path)
+		last := i == k-1
+		switch {
+		case m.Kind == recfs.Mkdir && base == fmt.Sprint(key):
+			d.hasDir = true
+		case m.Kind == recfs.Rename && path.Base(m.To) == "meta.json":
+			d.hasMeta = true
+		case base == "index.domain" && m.Kind == recfs.Trunc:
+			// a truncate is half of a rewrite only if the rewrite follows
+			d.idxTrunc = false
+			if n := nextInDir(i+1, key); n != nil && n.Kind == recfs.WriteAt && path.Base(n.Path) == "index.domain" {
+				d.idxTrunc = true
+			}
+		case base == "index.domain" && m.Kind == recfs.WriteAt:
+			d.idxTrunc = false
+			if last && torn >= 0 && torn < len(m.Data) {
+				d.idxTorn = true
+			} else {
+				d.swapped = false
+			}
+		case strings.HasSuffix(base, ".domain_gc") && (m.Kind == recfs.Create || m.Kind == recfs.WriteAt):
+			d.copying = true
+		case m.Kind == recfs.Rename && strings.HasSuffix(path.Base(m.To), ".domain_temp"):
+			d.missing[base] = true
+		case m.Kind == recfs.Rename && strings.HasSuffix(base, ".domain_gc"):
+			delete(d.missing, path.Base(m.To))
+			d.swapped = true
+			d.copying = false
+		}
+	}
+	out := map[uint32]string{}
+	for key, d := range states {
+		var f []string
+		if d.hasDir && !d.hasMeta {
+			f = append(f, "no-meta")
+		}
+		if len(d.missing) > 0 {
+			f = append(f, "gc-file-missing")
+		}
+		if d.swapped {
+			f = append(f, "gc-swapped")
+		}
+		if d.copying && len(d.missing) == 0 && !d.swapped {
+			f = append(f, "gc-copy")
+		}
+		if d.idxTorn {
+			f = append(f, "idx-torn")
+		}
+		if d.idxTrunc {
+			f = append(f, "idx-trunc")
+		}
+		if len(f) == 0 {
+			out[key] = "clean"
+		} else {
+			out[key] = strings.Join(f, "+")
+		}
+	}
+	return out
+}
+
+// rootState collapses a directory state to the update whose interruption explains it:
+// once a data file has been moved or swapped by garbage collection, whether the index
+// rewrite that ends the collection had also begun does not matter.
+func rootState(st string) string {
+	switch {
+	case st == "":
+		return "clean"
+	case strings.Contains(st, "no-meta"):
+		return "no-meta"
+	case strings.Contains(st, "gc-file-missing"):
+		return "gc-file-missing"
+	case strings.Contains(st, "gc-swapped"):
+		return "gc-swapped"
+	}
+	return st
+}
+
+// recording is one script run on the recording filesystem.
+type recording struct {
+	s        *cskit.Script
+	muts     []recfs.Mutation
+	snaps    map[int]*snapshot // marker idx -> state after that op
+	final    *snapshot
+	sessions map[int]*cskit.SessionLog
+	stopped  bool
+}
+
+func record(s *cskit.Script) *recording {
+	rfs, log := recfs.New(xfs.NewMem())
+	e := cskit.NewExec(rfs, s)
+	// one channel at a time during garbage collection: the recorded log then holds each
+	// channel's compaction as one contiguous block (channel order is still map order)
+	e.ExtraOptions = []cesium.Option{cesium.WithGCConfig(cesium.GCConfig{Threshold: s.GCThreshold, TryInterval: 24 * time.Hour, MaxGoroutine: 1})}
+	rec := &recording{s: s, snaps: map[int]*snapshot{}}
+	created := map[uint32]bool{}
+	chanIdx := -1000
+	copyCreated := func() map[uint32]bool {
+		cr := map[uint32]bool{}
+		for k := range created {
+			cr[k] = true
+		}
+		return cr
+	}
+	e.OnChannelCreated = func(cs cskit.ChanSpec) {
+		created[cs.Key] = true
+		rec.snaps[chanIdx] = &snapshot{durable: e.Durable.Clone(), ever: cloneEver(e.Ever), created: copyCreated()}
+		log.Mark(chanIdx, "channel-created")
+		chanIdx++
+	}
+	e.AfterOp = func(i int, op cskit.Op, ex *cskit.Exec) {
+		rec.snaps[i] = &snapshot{durable: ex.Durable.Clone(), ever: cloneEver(ex.Ever), created: copyCreated()}
+		log.Mark(i, op.Kind)
+	}
+	if err := e.Setup(); err != nil {
+		return nil
+	}
+	e.Run()
+	e.CloseWriters()
+	rec.stopped = e.UnexpectedErr != ""
+	_ = e.DB.Close()
+	log.Mark(len(s.Ops), "db-closed")
+	rec.final = &snapshot{durable: e.Durable.Clone(), ever: cloneEver(e.Ever), created: created}
+	rec.snaps[len(s.Ops)] = rec.final
+	rec.muts = log.Snapshot()
+	rec.sessions = e.Sessions
+	return rec
+}
+
+type verdict struct {
+	fails      []failure
+	nonTrivial bool
+	hung       bool
+	nextIdx    int
+	nextNote   string
+	states     map[uint32]string
+}
+
+// evaluate judges the crash point "after mutation k (1-based), last write cut to torn
+// bytes" of a recording. muts[k-1] must not be a marker.
+func evaluate(rec *recording, k, torn int) verdict {
+	s, muts := rec.s, rec.muts
+	prev := &snapshot{durable: cskit.NewModel(), ever: map[uint32]map[string]cskit.Stamp{}, created: map[uint32]bool{}}
+	for j := k - 1; j >= 0; j-- {
+		if muts[j].Kind == recfs.Marker {
+			prev = rec.snaps[muts[j].Idx]
+			break
+		}
+	}
+	// the op in flight is the one whose marker comes next
+	nextIdx, nextNote := len(s.Ops), "db-closed"
+	for j := k; j < len(muts); j++ {
+		if muts[j].Kind == recfs.Marker {
+			nextIdx, nextNote = muts[j].Idx, muts[j].Note
+			break
+		}
+	}
+	after := rec.snaps[nextIdx]
+	if after == nil {
+		after = rec.final
+	}
+	var inflight *cskit.Op
+	if nextIdx >= 0 && nextIdx < len(s.Ops) {
+		inflight = &s.Ops[nextIdx]
+	}
+	v := verdict{nextIdx: nextIdx, nextNote: nextNote, states: dirStates(muts, k, torn)}
+	v.fails, v.nonTrivial, v.hung = judge(s, muts, k, torn, prev, after, inflight, rec.sessions, nextIdx)
+	// attach the image state to every failure: <role>:<unfinished update>@<where>
+	for i := range v.fails {
+		f := &v.fails[i]
+		if f.key == 0 {
+			// not attributable to one channel (open failed): every unfinished update counts
+			set := map[string]bool{}
+			for _, st := range v.states {
+				if st != "clean" {
+					set[rootState(st)] = true
+				}
+			}
+			var fl []string
+			for x := range set {
+				fl = append(fl, x)
+			}
+			sort.Strings(fl)
+			if len(fl) == 0 {
+				fl = []string{"clean"}
+			}
+			f.state = "-:" + strings.Join(fl, "+") + "@any"
+			continue
+		}
+		own := rootState(v.states[f.key])
+		role, idxState := "data", "clean"
+		if isIndexChan(s, f.key) {
+			role = "idx"
+		} else if ik := indexOf(s, f.key); ik != 0 {
+			idxState = rootState(v.states[ik])
+		}
+		harmful := func(st string) bool { return st != "clean" && st != "gc-copy" }
+		switch {
+		case harmful(own):
+			f.state = role + ":" + own + "@own"
+		case harmful(idxState):
+			f.state = role + ":" + idxState + "@index"
+		case f.ahead:
+			// the skew between a data channel and its index channel is a cause of its own
+			// only when no update of either directory is unfinished (a torn pointer is
+			// ahead of anything)
+			f.state = role + ":ahead-of-index@own"
+		case own != "clean":
+			f.state = role + ":" + own + "@own"
+		case idxState != "clean":
+			f.state = role + ":" + idxState + "@index"
+		default:
+			f.state = role + ":clean@-"
+		}
+	}
+	return v
 }
 
 func one(h *harness.H, layer string, c int, maint bool) {
@@ -137,71 +468,28 @@ func one(h *harness.H, layer string, c int, maint bool) {
 	}
 
 	// 2. recorded run with markers
-	rfs, log := recfs.New(xfs.NewMem())
-	e := cskit.NewExec(rfs, s)
-	snaps := map[int]*snapshot{} // marker idx -> state after that op
-	created := map[uint32]bool{}
-	chanIdx := -1000
-	e.OnChannelCreated = func(cs cskit.ChanSpec) {
-		created[cs.Key] = true
-		cr := map[uint32]bool{}
-		for k := range created {
-			cr[k] = true
-		}
-		snaps[chanIdx] = &snapshot{durable: e.Durable.Clone(), ever: cloneEver(e.Ever), created: cr}
-		log.Mark(chanIdx, "channel-created")
-		chanIdx++
-	}
-	e.AfterOp = func(i int, op cskit.Op, ex *cskit.Exec) {
-		cr := map[uint32]bool{}
-		for k := range created {
-			cr[k] = true
-		}
-		snaps[i] = &snapshot{durable: ex.Durable.Clone(), ever: cloneEver(ex.Ever), created: cr}
-		log.Mark(i, op.Kind)
-	}
-	if err := e.Setup(); err != nil {
+	rec := record(s)
+	if rec == nil {
 		h.Inconclusive("setup-error")
 		return
 	}
-	e.Run()
-	e.CloseWriters()
-	stopped := e.UnexpectedErr != ""
-	_ = e.DB.Close()
-	log.Mark(len(s.Ops), "db-closed")
-	final := &snapshot{durable: e.Durable.Clone(), ever: cloneEver(e.Ever), created: created}
-	snaps[len(s.Ops)] = final
-	if stopped {
+	if rec.stopped {
 		h.Count("scripts_stopped_by_engine_error", 1)
 		return
 	}
-	muts := log.Snapshot()
+	muts := rec.muts
 	h.Count("scripts_enumerated", 1)
 	h.Count("mutations_recorded", len(muts))
 
 	// 3. enumerate crash points
-	prev := &snapshot{durable: cskit.NewModel(), ever: map[uint32]map[string]cskit.Stamp{}, created: map[uint32]bool{}}
 	prevIdx := -2000
 	shape := s.Shape()
 	sampled := false
 	for k := 1; k <= len(muts); k++ {
 		m := muts[k-1]
 		if m.Kind == recfs.Marker {
-			prev = snaps[m.Idx]
 			prevIdx = m.Idx
 			continue
-		}
-		// the op in flight is the one whose marker comes next
-		nextIdx, nextNote := len(s.Ops), "db-closed"
-		for j := k; j < len(muts); j++ {
-			if muts[j].Kind == recfs.Marker {
-				nextIdx, nextNote = muts[j].Idx, muts[j].Note
-				break
-			}
-		}
-		after := snaps[nextIdx]
-		if after == nil {
-			after = final
 		}
 		torns := []int{-1}
 		if m.Kind == recfs.WriteAt && len(m.Data) >= 2 {
@@ -210,67 +498,111 @@ func one(h *harness.H, layer string, c int, maint bool) {
 		for _, torn := range torns {
 			h.Eval()
 			h.Count("crash_images", 1)
-			var inflight *cskit.Op
-			if nextIdx >= 0 && nextIdx < len(s.Ops) {
-				inflight = &s.Ops[nextIdx]
-			}
-			fails, nonTrivial := judge(s, muts, k, torn, prev, after, inflight, e.Sessions, nextIdx)
-			if nonTrivial {
+			v := evaluate(rec, k, torn)
+			if v.nonTrivial {
 				h.Distinct(fmt.Sprintf("%s|%d|%d", shape, k, torn))
 			}
-			for _, f := range fails {
-				tornS := "whole"
-				if torn >= 0 {
-					tornS = "torn"
-				}
-				nextKind := "end"
-				var nextMut *recfs.Mutation
-				for j := k; j < len(muts); j++ {
-					if muts[j].Kind != recfs.Marker {
-						nextKind = string(muts[j].Kind) + "@" + fileClass(s, muts[j].Path)
-						nm := muts[j]
-						if len(nm.Data) > 64 {
-							nm.Data = nm.Data[:64]
-						}
-						nextMut = &nm
-						break
-					}
-				}
-				sig := fmt.Sprintf("c02:%s:%s:%s@%s:%s:then-%s", f.class, nextNote, m.Kind, fileClass(s, m.Path), tornS, nextKind)
-				lo := k - 3
-				if lo < 0 {
-					lo = 0
-				}
-				last := append([]recfs.Mutation(nil), muts[lo:k]...)
-				for i := range last {
-					if len(last[i].Data) > 64 {
-						last[i].Data = last[i].Data[:64]
-					}
-				}
-				h.Violation(layer, c, sig, f.detail, witness{Script: s, Prefix: k, Torn: torn, Total: len(muts), InFlight: nextNote, OpIndex: nextIdx, Last: last, Next: nextMut, Detail: f.detail})
+			tornS := "whole"
+			if torn >= 0 {
+				tornS = "torn"
 			}
-			if !sampled && nonTrivial && k > len(muts)/2 {
+			nextKind := "end"
+			var nextMut *recfs.Mutation
+			for j := k; j < len(muts); j++ {
+				if muts[j].Kind != recfs.Marker {
+					nextKind = string(muts[j].Kind) + "@" + fileClass(s, muts[j].Path)
+					nm := muts[j]
+					if len(nm.Data) > 64 {
+						nm.Data = nm.Data[:64]
+					}
+					nextMut = &nm
+					break
+				}
+			}
+			window := fmt.Sprintf("%s:%s@%s:%s:then-%s", v.nextNote, m.Kind, fileClass(s, m.Path), tornS, nextKind)
+			lo := k - 3
+			if lo < 0 {
+				lo = 0
+			}
+			last := append([]recfs.Mutation(nil), muts[lo:k]...)
+			for i := range last {
+				if len(last[i].Data) > 64 {
+					last[i].Data = last[i].Data[:64]
+				}
+			}
+			states := map[string]string{}
+			for key, st := range v.states {
+				states[fmt.Sprint(key)] = st
+			}
+			for _, f := range v.fails {
+				w := witness{Script: s, Prefix: k, Torn: torn, Total: len(muts), InFlight: v.nextNote, OpIndex: v.nextIdx, Channel: f.key, States: states, Window: window, Last: last, Next: nextMut, Detail: f.detail}
+				if f.class == "read-hang" {
+					// watchdog, not a verdict
+					h.Inconclusive("read-hang:" + f.state)
+					h.Count("read_hang_witnesses", 1)
+					writeHangWitness(layer, c, f, w)
+					continue
+				}
+				sig := fmt.Sprintf("c02:%s:%s", f.class, f.state)
+				h.Violation(layer, c, sig, f.detail, w)
+				h.Seen("windows", f.class+"|"+window)
+			}
+			if !sampled && v.nonTrivial && k > len(muts)/2 {
 				sampled = true
-				h.Sample(map[string]any{"case": c, "layer": layer, "mutations_total": len(muts), "crash_after_mutation": k, "torn": torn, "op_in_flight": nextNote, "mutation": map[string]any{"kind": m.Kind, "path": m.Path, "off": m.Off, "len": len(m.Data)}, "after_completed_op": prevIdx})
+				h.Sample(map[string]any{"case": c, "layer": layer, "mutations_total": len(muts), "crash_after_mutation": k, "torn": torn, "op_in_flight": v.nextNote, "mutation": map[string]any{"kind": m.Kind, "path": m.Path, "off": m.Off, "len": len(m.Data)}, "after_completed_op": prevIdx})
 			}
 		}
 	}
 }
 
-type failure struct{ class, detail string }
+type failure struct {
+	class, detail string
+	key           uint32 // failing channel (0: not attributable to one channel)
+	ahead         bool   // the channel's stored domains extend past those of its index channel (see domainsAhead)
+	state         string // filled by evaluate
+}
 
-func judge(s *cskit.Script, muts []recfs.Mutation, k, torn int, prev, after *snapshot, inflight *cskit.Op, sessions map[int]*cskit.SessionLog, nextIdx int) (fails []failure, nonTrivial bool) {
+type readResult struct {
+	fr  cesium.Frame
+	err error
+}
+
+// readTO performs db.Read under the watchdog. hung=true: the call did not return.
+func readTO(db *cesium.DB, tr telem.TimeRange, key uint32) (fr cesium.Frame, err error, hung bool) {
+	ch := make(chan readResult, 1)
+	go func() {
+		defer func() {
+			if r := recover(); r != nil {
+				ch <- readResult{err: fmt.Errorf("panic in read: %v", r)}
+			}
+		}()
+		f, e := db.Read(context.Background(), tr, key)
+		ch <- readResult{fr: f, err: e}
+	}()
+	select {
+	case r := <-ch:
+		return r.fr, r.err, false
+	case <-time.After(readWatchdog):
+		return cesium.Frame{}, nil, true
+	}
+}
+
+func judge(s *cskit.Script, muts []recfs.Mutation, k, torn int, prev, after *snapshot, inflight *cskit.Op, sessions map[int]*cskit.SessionLog, nextIdx int) (fails []failure, nonTrivial bool, hung bool) {
 	img, err := recfs.Image(muts, k, torn)
 	if err != nil {
-		return []failure{{"harness-image", err.Error()}}, false
+		return []failure{{class: "harness-image", detail: err.Error()}}, false, false
 	}
 	ctx := context.Background()
 	db, err := cesium.Open(ctx, "db", cesium.WithFS(img), cesium.WithFileSizeCap(telem.Size(s.FileSize)),
 		cesium.WithGCConfig(cesium.GCConfig{Threshold: s.GCThreshold, TryInterval: 24 * time.Hour}))
 	if err != nil {
-		return []failure{{"open-error", "cesium.Open on the crash image failed: " + trim(err.Error())}}, false
+		return []failure{{class: "open-error", detail: "cesium.Open on the crash image failed: " + trim(err.Error())}}, false, false
 	}
-	defer func() { _ = db.Close() }()
+	defer func() {
+		if !hung { // a DB with a stuck iterator cannot be closed; it is abandoned
+			_ = db.Close()
+		}
+	}()
 	delChans := map[uint32]bool{}
 	if inflight != nil && inflight.Kind == "delete" {
 		for _, c := range inflight.Chans {
@@ -282,52 +614,77 @@ func judge(s *cskit.Script, muts []recfs.Mutation, k, torn int, prev, after *sna
 		keys = append(keys, key)
 	}
 	sort.Slice(keys, func(i, j int) bool { return keys[i] < keys[j] })
+
+	// pass 1: full read of every channel
+	type chanRead struct {
+		got    []cskit.Stamp
+		gotSet map[cskit.Stamp]bool
+		gotTS  map[int64]bool
+		ok     bool
+	}
+	reads := map[uint32]*chanRead{}
 	for _, key := range keys {
-		fr, err := db.Read(ctx, telem.TimeRangeMax, key)
+		cr := &chanRead{gotSet: map[cskit.Stamp]bool{}, gotTS: map[int64]bool{}}
+		reads[key] = cr
+		fr, err, h := readTO(db, telem.TimeRangeMax, key)
+		if h {
+			hung = true
+			fails = append(fails, failure{class: "read-hang", key: key, detail: fmt.Sprintf("full read of channel %d did not return within %s", key, readWatchdog)})
+			return fails, nonTrivial, hung
+		}
 		if err != nil {
-			fails = append(fails, failure{"read-error", fmt.Sprintf("full read of channel %d failed: %s", key, trim(err.Error()))})
+			fails = append(fails, failure{class: "read-error", key: key, detail: fmt.Sprintf("full read of channel %d failed: %s", key, trim(err.Error()))})
 			continue
 		}
 		allowed := after.ever[key]
-		var got []cskit.Stamp
-		gotSet := map[cskit.Stamp]bool{}
 		bad := false
 		for _, ser := range fr.Get(key).Series {
 			for _, v := range cskit.SplitSeries(ser) {
 				st, ok := allowed[string(v)]
 				if !ok {
-					fails = append(fails, failure{"foreign-bytes", fmt.Sprintf("channel %d returned a value never written for it: %x", key, v)})
+					fails = append(fails, failure{class: "foreign-bytes", key: key, detail: fmt.Sprintf("channel %d returned a value never written for it: %x", key, v)})
 					bad = true
 					break
 				}
-				got = append(got, st)
-				if gotSet[st] {
-					fails = append(fails, failure{"duplicate", fmt.Sprintf("channel %d returned ts=%d twice", key, st.TS)})
+				cr.got = append(cr.got, st)
+				if cr.gotSet[st] {
+					fails = append(fails, failure{class: "duplicate", key: key, detail: fmt.Sprintf("channel %d returned ts=%d twice", key, st.TS)})
 					bad = true
 				}
-				gotSet[st] = true
+				cr.gotSet[st] = true
+				cr.gotTS[st.TS] = true
 			}
 			if bad {
 				break
 			}
 		}
-		if bad {
+		cr.ok = !bad
+	}
+	for i := range fails {
+		if ik := indexOf(s, fails[i].key); fails[i].key != 0 && ik != 0 && ik != fails[i].key {
+			fails[i].ahead = domainsAhead(img, fails[i].key, ik)
+		}
+	}
+
+	// pass 2: judge every channel that read back cleanly
+	for _, key := range keys {
+		cr := reads[key]
+		if !cr.ok {
 			continue
 		}
+		got, gotSet, gotTS := cr.got, cr.gotSet, cr.gotTS
+		allowed := after.ever[key]
+		first := len(fails)
 		if len(got) > 0 {
 			nonTrivial = true
 		}
 		for i := 1; i < len(got); i++ {
 			if got[i].TS <= got[i-1].TS {
-				fails = append(fails, failure{"disorder", fmt.Sprintf("channel %d: ts %d returned after %d", key, got[i].TS, got[i-1].TS)})
+				fails = append(fails, failure{class: "disorder", key: key, detail: fmt.Sprintf("channel %d: ts %d returned after %d", key, got[i].TS, got[i-1].TS)})
 				break
 			}
 		}
 		// (a) durable data intact (an in-flight delete makes the range optional but atomic)
-		gotTS := map[int64]bool{}
-		for _, g := range got {
-			gotTS[g.TS] = true
-		}
 		inRangePresent, inRangeAbsent := 0, 0
 		for _, d := range prev.durable.All(key) {
 			if delChans[key] && d.TS >= inflight.A && d.TS < inflight.B {
@@ -340,12 +697,12 @@ func judge(s *cskit.Script, muts []recfs.Mutation, k, torn int, prev, after *sna
 			}
 			st, ok := allowed[string(d.Val)]
 			if !ok || !gotSet[st] {
-				fails = append(fails, failure{"lost-durable", fmt.Sprintf("channel %d lost durable sample ts=%d (commit had completed with index persistence before the crash point)", key, d.TS)})
+				fails = append(fails, failure{class: "lost-durable", key: key, detail: fmt.Sprintf("channel %d lost durable sample ts=%d (commit had completed with index persistence before the crash point)", key, d.TS)})
 				break
 			}
 		}
 		if inRangePresent > 0 && inRangeAbsent > 0 {
-			fails = append(fails, failure{"delete-not-atomic", fmt.Sprintf("channel %d shows %d of the durable samples in the in-flight delete range and misses %d", key, inRangePresent, inRangeAbsent)})
+			fails = append(fails, failure{class: "delete-not-atomic", key: key, detail: fmt.Sprintf("channel %d shows %d of the durable samples in the in-flight delete range and misses %d", key, inRangePresent, inRangeAbsent)})
 		}
 		// (c) per writer session: recovered samples are a commit-granular prefix
 		for _, sl := range sessions {
@@ -381,7 +738,7 @@ func judge(s *cskit.Script, muts []recfs.Mutation, k, torn int, prev, after *sna
 			}
 			for i := j; i < len(f); i++ {
 				if gotSet[cskit.Stamp{TS: f[i], Gen: sl.Gen}] {
-					fails = append(fails, failure{"non-prefix", fmt.Sprintf("channel %d session gen=%d: sample %d (ts=%d) recovered although sample %d (ts=%d) is missing", key, sl.Gen, i, f[i], j, f[j])})
+					fails = append(fails, failure{class: "non-prefix", key: key, detail: fmt.Sprintf("channel %d session gen=%d: sample %d (ts=%d) recovered although sample %d (ts=%d) is missing", key, sl.Gen, i, f[i], j, f[j])})
 					i = len(f)
 				}
 			}
@@ -392,7 +749,7 @@ func judge(s *cskit.Script, muts []recfs.Mutation, k, torn int, prev, after *sna
 				}
 			}
 			if !okB {
-				fails = append(fails, failure{"mid-commit", fmt.Sprintf("channel %d session gen=%d: %d samples recovered, not a commit boundary %v", key, sl.Gen, j, bcount)})
+				fails = append(fails, failure{class: "mid-commit", key: key, detail: fmt.Sprintf("channel %d session gen=%d: %d samples recovered, not a commit boundary %v", key, sl.Gen, j, bcount)})
 			}
 		}
 		// alignment: sub-range reads must return exactly the samples of the full read
@@ -403,9 +760,14 @@ func judge(s *cskit.Script, muts []recfs.Mutation, k, torn int, prev, after *sna
 				if b <= a {
 					continue
 				}
-				sub, err := db.Read(ctx, telem.TimeRange{Start: telem.TimeStamp(a), End: telem.TimeStamp(b)}, key)
+				sub, err, h := readTO(db, telem.TimeRange{Start: telem.TimeStamp(a), End: telem.TimeStamp(b)}, key)
+				if h {
+					hung = true
+					fails = append(fails, failure{class: "read-hang", key: key, detail: fmt.Sprintf("range read [%d,%d) of channel %d did not return within %s", a, b, key, readWatchdog)})
+					break
+				}
 				if err != nil {
-					fails = append(fails, failure{"read-error", fmt.Sprintf("range read of channel %d failed: %s", key, trim(err.Error()))})
+					fails = append(fails, failure{class: "read-error", key: key, detail: fmt.Sprintf("range read of channel %d failed: %s", key, trim(err.Error()))})
 					break
 				}
 				var want [][]byte
@@ -427,13 +789,78 @@ func judge(s *cskit.Script, muts []recfs.Mutation, k, torn int, prev, after *sna
 					same = bytes.Equal(want[i], have[i])
 				}
 				if !same {
-					fails = append(fails, failure{"misaligned", fmt.Sprintf("channel %d: range read [%d,%d) returned %d samples, the full read places %d there", key, a, b, len(have), len(want))})
+					fails = append(fails, failure{class: "misaligned", key: key, detail: fmt.Sprintf("channel %d: range read [%d,%d) returned %d samples, the full read places %d there", key, a, b, len(have), len(want))})
 					break
 				}
 			}
 		}
+		// image-state descriptor (never a verdict of its own)
+		if ik := indexOf(s, key); ik != 0 && ik != key && len(fails) > first && domainsAhead(img, key, ik) {
+			for i := first; i < len(fails); i++ {
+				fails[i].ahead = true
+			}
+		}
+		if hung {
+			return fails, nonTrivial, hung
+		}
 	}
-	return fails, nonTrivial
+	return fails, nonTrivial, hung
+}
+
+// storedDomains decodes the time ranges of the domain pointers in a channel's index.domain
+// (26-byte records: start, end, file, offset, size; a trailing partial record is ignored,
+// as the engine does). Used only to describe the image in signatures.
+func storedDomains(img xfs.FS, key uint32) [][2]int64 {
+	p := fmt.Sprintf("db/%d/index.domain", key)
+	st, err := img.Stat(p)
+	if err != nil || st.Size() == 0 {
+		return nil
+	}
+	f, err := img.Open(p, os.O_RDONLY)
+	if err != nil {
+		return nil
+	}
+	defer func() { _ = f.Close() }()
+	b := make([]byte, st.Size())
+	_, _ = f.ReadAt(b, 0)
+	var out [][2]int64
+	for i := 0; i+26 <= len(b); i += 26 {
+		out = append(out, [2]int64{int64(binary.LittleEndian.Uint64(b[i:])), int64(binary.LittleEndian.Uint64(b[i+8:]))})
+	}
+	return out
+}
+
+// domainsAhead reports whether data channel key stores a domain that no stored domain of
+// its index channel ik covers: the data channel's commit reached the disk, the index
+// channel's did not.
+func domainsAhead(img xfs.FS, key, ik uint32) bool {
+	idx := storedDomains(img, ik)
+	sort.Slice(idx, func(i, j int) bool { return idx[i][0] < idx[j][0] })
+	// channels roll over to a new file independently, so one data domain may span several
+	// contiguous index domains: merge those
+	var merged [][2]int64
+	for _, x := range idx {
+		if n := len(merged); n > 0 && x[0] <= merged[n-1][1] {
+			if x[1] > merged[n-1][1] {
+				merged[n-1][1] = x[1]
+			}
+			continue
+		}
+		merged = append(merged, x)
+	}
+	for _, d := range storedDomains(img, key) {
+		covered := false
+		for _, x := range merged {
+			if x[0] <= d[0] && d[1] <= x[1] {
+				covered = true
+				break
+			}
+		}
+		if !covered {
+			return true
+		}
+	}
+	return false
 }
 
 // deletedUpTo reports whether (key, ts) lies in the range of a delete op with index <= upTo.
